@@ -28,7 +28,7 @@ RULE = ('server dialogues executed by a scripted fake ssh (steps: host-key quest
         'the fake records (every output, every input line, state changes, sequence numbers): the password is received only '
         'when its output since the previous input matches password_regex, at most once; "yes" only after the host-key '
         'question; login() True only if the shell state was entered (and the unique prompt set when reset is enabled), after '
-        'which prompt() delimits echo <id> exactly; every other dialogue ends in a pexpect exception within the configured '
+        'which prompt() delimits echo <id> exactly, also for 2-3 commands typed ahead with outputs of up to 1.3 KB; every other dialogue ends in a pexpect exception within the configured '
         'timeouts. non-trivial = dialogue of >=2 steps; distinct by (dialogue, options)')
 ASSUMPTIONS = ['a scripted client stands in for OpenSSH (no network); "direct answer to a password prompt" is defined on the '
                'transcript: the fake\'s output since the previously received line matches the password_regex in force',
